@@ -317,7 +317,10 @@ func (e *c11EMachine) apply(i int, op c11EOp) {
 			// block is what the recorded net fees must gain or lose
 			cust1, net1 := e.collectorBooks()
 			// attribute the events of this block to the collector asset they concern
-			type ev struct{ started, surplusClosed, debtClosed bool }
+			type ev struct {
+				started, surplusClosed, debtClosed bool
+				surplusLots                        sdk.Int // lots of the surplus auctions closed in this block
+			}
 			events := map[string]*ev{}
 			at := func(d string) *ev {
 				if events[d] == nil {
@@ -333,7 +336,12 @@ func (e *c11EMachine) apply(i int, op c11EOp) {
 			for id, k := range kindsBefore {
 				if _, ok := e.ledgers[id]; !ok {
 					if k.kind == "surplus" {
-						at(k.collectorDenom()).surplusClosed = true
+						x := at(k.collectorDenom())
+						x.surplusClosed = true
+						if x.surplusLots.IsNil() {
+							x.surplusLots = sdk.ZeroInt()
+						}
+						x.surplusLots = x.surplusLots.Add(k.lot)
 					} else {
 						at(k.collectorDenom()).debtClosed = true
 					}
@@ -359,7 +367,12 @@ func (e *c11EMachine) apply(i int, op c11EOp) {
 						e.r.Class("collector-books:several-events-on-one-asset-in-a-block:not-attributed")
 						continue
 					case x.surplusClosed:
-						what = "surplus-auction-closed"
+						// known finding C13-F1 is exactly: the lot leaves the collector once more (custody -lot) and the net
+						// fees are raised by the lot (+lot); any other imbalance at a surplus close is something else
+						what = "surplus-auction-closed-other-imbalance"
+						if dn.Sub(dc).Equal(x.surplusLots.MulRaw(2)) {
+							what = "surplus-auction-closed"
+						}
 					case x.debtClosed:
 						what = "debt-auction-closed"
 					default:
